@@ -250,6 +250,7 @@ def execute(world_cls, run, header, rng=None, ops=None):
     run.ev("header", header)
     import seams
     seams.reset_library_state()   # no state of the code under test survives from an earlier run
+    run.hist_check = bool(header.get("hist_check"))
     pc = _ProcessConfig(header.get("proc"))
     pc.__enter__()
     try:
@@ -312,6 +313,16 @@ def result_of(run, header, keep_ops):
     return r
 
 
+_KEY_TWINS = None
+
+
+def _key_twins():
+    global _KEY_TWINS
+    if _KEY_TWINS is None:
+        _KEY_TWINS = json.load(open(os.path.join(os.path.dirname(os.path.abspath(__file__)), "keytwins.json")))
+    return _KEY_TWINS
+
+
 def one_run(world_name, prop, tier, seed, index, keep_ops=False, profile=None):
     cls = WORLDS[world_name]
     rs = run_seed_for(seed, prop, world_name, index)
@@ -324,6 +335,17 @@ def one_run(world_name, prop, tier, seed, index, keep_ops=False, profile=None):
             header.update(profile)
         if getattr(cls, "process_config", True):
             header["proc"] = draw_process_config(rng)
+        if world_name in ("envelope", "deleg", "chain", "builder", "validators", "storage") and rng.random() < (0.3 if prop == "C12" else 0.04):
+            header["hist_check"] = True       # every library call of this run is also evaluated on freshly imported state (forked copy)
+        if isinstance(header.get("key_seeds"), list) and len(header["key_seeds"]) >= 2:
+            # one run in eight: two of the signers hold keys whose hex spellings share their first or their last eight
+            # characters (found by birthday search, keytwins.json) - short key ids, truncated labels and prefix tables collide
+            r = rng.random()
+            if r < 0.125:
+                pair = rng.choice(_key_twins()["suffix8" if r < 0.07 else "prefix8"])
+                i, j = rng.sample(range(len(header["key_seeds"])), 2)
+                header["key_seeds"][i], header["key_seeds"][j] = pair
+                header["key_twins"] = [i, j]
         execute(cls, run, header, rng=rng)
     except BaseException as e:  # harness fault, never a VIOLATION
         return {"index": index, "run_seed": rs, "world": world_name, "status": "harness_error",
